@@ -142,7 +142,7 @@ theorem rises_falls_analog (x : List Int) (step : Int) (t : Nat) :
     (t ∈ rises x step true ↔ 1 ≤ t ∧ ∃ a b, x[t - 1]? = some a ∧ x[t]? = some b ∧ a ≤ step ∧ step < b) ∧
     (t ∈ falls x step true ↔ 1 ≤ t ∧ ∃ a b, x[t - 1]? = some a ∧ x[t]? = some b ∧ step ≤ a ∧ b < step) := by
   constructor
-  · unfold rises binarize
+  · unfold rises binarize binOne
     simp only [if_true]
     rw [shifted_where_mem_fst]
     simp only [decide_eq_true_eq, List.getElem?_map]
@@ -162,7 +162,7 @@ theorem rises_falls_analog (x : List Int) (step : Int) (t : Nat) :
       refine ⟨h1, 0, 1, ?_, ?_, by omega⟩
       · simp only [ha, Option.map_some, Option.some.injEq]; split <;> omega
       · simp only [hb, Option.map_some, Option.some.injEq]; split <;> omega
-  · unfold falls rises binarize
+  · unfold falls rises binarize binOne
     simp only [if_true]
     rw [shifted_where_mem_fst]
     simp only [decide_eq_true_eq, List.getElem?_map, List.map_map]
@@ -239,7 +239,7 @@ theorem rises2_falls2_analog (axis : Nat) (x : List (List Int)) (step : Int) (ij
     (ij ∈ falls2 axis x step true ↔
       1 ≤ coord axis ij ∧ ∃ a b, at2 x (prevPos axis ij) = some a ∧ at2 x ij = some b ∧ step ≤ a ∧ b < step) := by
   constructor
-  · unfold rises2 binarize
+  · unfold rises2 binarize binOne
     simp only [if_true]
     rw [shifted_where2_mem_fst]
     simp only [decide_eq_true_eq, at2_map_map]
@@ -259,7 +259,7 @@ theorem rises2_falls2_analog (axis : Nat) (x : List (List Int)) (step : Int) (ij
       refine ⟨h1, 0, 1, ?_, ?_, by omega⟩
       · simp only [ha, Option.map_some, Option.some.injEq]; split <;> omega
       · simp only [hb, Option.map_some, Option.some.injEq]; split <;> omega
-  · unfold falls2 rises2 binarize
+  · unfold falls2 rises2 binarize binOne
     simp only [if_true]
     rw [shifted_where2_mem_fst]
     simp only [decide_eq_true_eq, at2_map_map]
